@@ -6,7 +6,8 @@
    TREE  = ((path node) ...), path = (str ...), str = (codepoint ...), node = D | (F str)
    STEP  = (create files name ts) | (stale files name ts) | (write path str) | (delete path)
          | (mkdir path) | (restore name (tasks)) | (remodel name (tasks) (targets) ((in out) ...))
-         | (list)
+         | (list) | (nop)
+   A restore step additionally reports its effective effect trace: ((result state trace) ...)
    Crash points are numbered by EFFECTIVE effects (a mkdir of an existing directory is not one). *)
 let exn_sx (e : exn) : sx = A (match e with
   | TypeError -> "TypeError" | KeyError -> "KeyError" | AttributeError -> "AttributeError"
@@ -51,7 +52,8 @@ let optable (x : sx) : (n list -> n list) =
 
 let unit_res_sx (r : unit res) : sx = match r with Ok _ -> L [A "ok"] | Exn e -> L [A "exn"; exn_sx e]
 
-let step (fixed : bool) (f : fs) (s : sx) : sx * fs = match s with
+let last_trace : sx ref = ref (L [])
+let step (fixed : bool) (f : fs) (s : sx) : sx * fs = last_trace := L []; match s with
   | L [A "create"; files; nm; ts] ->
     let (f1, r) = mgr_init f in
     (match r with
@@ -70,12 +72,19 @@ let step (fixed : bool) (f : fs) (s : sx) : sx * fs = match s with
     (match r with
      | Exn e -> (L [A "exn"; exn_sx e], f1)
      | Ok m ->
-       let (f2, r2) = restore_backup m f1 (sx_str nm) (List.map sx_str (sx_list tasks)) in
+       let tasks = List.map sx_str (sx_list tasks) in
+       let (f2, r2) = restore_backup m f1 (sx_str nm) tasks in
+       (match mgr_get m (sx_str nm) with
+        | Some (_ :: _ as keys) ->
+          last_trace := L (List.map (fun (_, e) -> effect_sx e)
+                             (effective f1 (restore_effects (sx_str nm) tasks keys) 0 []))
+        | _ -> ());
        (unit_res_sx r2, f2))
   | L [A "remodel"; nm; tasks; targets; tbl] ->
     let (f2, r2) = run_remodel (optable tbl) f (sx_str nm) (List.map sx_str (sx_list tasks))
         (List.map sx_path (sx_list targets)) in
     (unit_res_sx r2, f2)
+  | L [A "nop"] -> (L [A "ok"], f)
   | L [A "list"] ->
     let (f1, r) = mgr_init f in (outcome_sx r, f1)
   | _ -> failwith "step"
@@ -110,5 +119,5 @@ let () = main_loop (fun x ->
   | L [A "hist"; fx; tree; steps] ->
     let fixed = sx_bool fx in
     let f = ref (sx_tree tree) in
-    L (List.map (fun s -> let (r, f') = step fixed !f s in f := f'; L [r; state_sx f']) (sx_list steps))
+    L (List.map (fun s -> let (r, f') = step fixed !f s in f := f'; L [r; state_sx f'; !last_trace]) (sx_list steps))
   | _ -> failwith "request")
